@@ -146,16 +146,27 @@ def setFlow (σ : Core) (k : Nat) (f : Flow) : Core := { σ with flows := (k, f)
 
 def crashed (σ : Core) : Core := { σ with phase := .crashed }
 
-/-- `SendData(client, pack_message(m, …))`; `packed` raising leaves the layer -/
+/-- `pack_message(message, transport_protocol)` with its error outcome: over TCP `struct.pack("!H", len(packed))` raises
+    struct.error when the packed message is longer than 65535 bytes (`none`); `wireOf`/`frame` alone would silently wrap -/
+def wireOf? (tcp : Bool) (b : Bytes) : Option Bytes :=
+  if tcp = true ∧ 65536 ≤ b.length then none else some (wireOf tcp b)
+
+/-- `SendData(client, pack_message(m, …))`; `packed` or `struct.pack` raising leaves the layer -/
 def sendClient (c : Cfg) (σ : Core) (m : Msg) : Core × List Out :=
   match pack c.I m with
   | none => (crashed σ, [.crash])
-  | some b => (σ, [.toClient m (wireOf c.tcp b)])
+  | some b =>
+    match wireOf? c.tcp b with
+    | none => (crashed σ, [.crash])
+    | some w => (σ, [.toClient m w])
 
 def sendServer (c : Cfg) (σ : Core) (m : Msg) : Core × List Out :=
   match pack c.I m with
   | none => (crashed σ, [.crash])
-  | some b => (σ, [.toServer m (wireOf c.tcp b)])
+  | some b =>
+    match wireOf? c.tcp b with
+    | none => (crashed σ, [.crash])
+    | some w => (σ, [.toServer m w])
 
 /-- `handle_response(flow, msg)` for the flow stored under `k` -/
 def handleResponse (c : Cfg) (σ : Core) (k : Nat) (f : Flow) (m : Msg) : Core × List Out :=
